@@ -116,6 +116,10 @@ theorem render_load_idem_eq (d o o' : DocD) (hv : Valid d) (hw : CatsWired d) (h
   rw [render_load_idem d o hv hw hu h] at h'
   cases h'; rfl
 
+/-- `Valid` is decidable: `validB` (served by the driver as `doc.hyps`, so that the harness
+checks that every generated document lies inside the hypotheses of the theorems above) -/
+theorem valid_decidable (d : DocD) : validB d = true ↔ Valid d := validB_iff d
+
 /-! ### legacy triggers -/
 
 /-- A legacy single-keyword trigger (`keyword`, no `keywords`) comes out carrying both
